@@ -1,6 +1,8 @@
 (* C12 - "pipe yields one output per input, in order, then ends; consumers always wake" (Pipe layer).
    All four parts hold for every value of the facts (in particular for the current code, [facts_unrepaired]).
-   Only statements here; proofs are in Data.v, Notify.v, Token.v, Closed.v, Terminal.v. *)
+   Only statements here; proofs are in Data.v, Notify.v, Token.v, Closed.v, Terminal.v.
+   [init_slow F inputs sl ext]: the items listed in [sl] are SLOW (their processing future returns Pending once in the middle,
+   the poll job is suspended holding the object: Model.JSusp); every theorem holds for every such list. *)
 From stdpp Require Import list numbers option.
 From Pipe Require Import Model Base Data Notify Token Closed Terminal Scenarios Refute.
 
@@ -8,8 +10,8 @@ From Pipe Require Import Model Base Data Notify Token Closed Terminal Scenarios 
    exactly the image of the inputs taken from the input stream so far (while the stream exists); what the consumer got
    is always a prefix of it *)
 Theorem C12_order :
-  forall (F : pfacts) (f : nat -> nat) inputs ext tr s,
-    run F f (init F inputs ext) tr = Some s ->
+  forall (F : pfacts) (f : nat -> nat) inputs sl ext tr s,
+    run F f (init_slow F inputs sl ext) tr = Some s ->
     inputs = s.(taken) ++ s.(inp_rest) /\
     (dropped s = false -> s.(delivered) ++ s.(pending) ++ job_inflight s f = f <$> s.(taken)) /\
     (exists l, s.(delivered) ++ l = f <$> s.(taken)).
@@ -29,8 +31,8 @@ Proof. vm_compute. split; reflexivity. Qed.
    ([cons_wake_inflight]: the running job is at l.331/l.362/l.380 with that waker).  Wakes of older wakers are no-ops. *)
 Theorem C12_consumer_always_woken :
   forall (F : pfacts) (f : nat -> nat), F.(f_poll_next_replaces_waker) = true ->
-  forall inputs ext tr s,
-    run F f (init F inputs ext) tr = Some s ->
+  forall inputs sl ext tr s,
+    run F f (init_slow F inputs sl ext) tr = Some s ->
     (s.(cst) = CPend \/ s.(cst) = CRun true) -> (s.(pending) <> [] \/ s.(closed) = true) ->
     s.(notify) = None /\ (s.(cwoken) = true \/ cons_wake_inflight s = true).
 Proof. exact consumer_always_woken. Qed.
@@ -55,7 +57,7 @@ Print Assumptions C12_stale_waker_witness.
 
 Example C12_consumer_always_woken_nonvacuous :
   match run facts_unrepaired f100 (init facts_unrepaired [1;2] true)
-          (replicate 6 AProd ++ [ACPoll; ACons; AItem; AEnv; AEnv] ++ replicate 7 AProd) with
+          (replicate 6 AProd ++ [ACPoll; ACons; AItem; AEnv; AEnv; AEnv] ++ replicate 7 AProd) with
   | Some s => (s.(cst), s.(pending), s.(cwoken), cons_wake_inflight s) = (CPend, [101], false, true)
   | None => False
   end.
@@ -63,7 +65,7 @@ Proof. vm_compute. reflexivity. Qed.
 (* with a spurious poll in between: the waker of the probe is replaced, the in-flight wake is that of the latest waker *)
 Example C12_consumer_always_woken_nonvacuous_probe :
   match run facts_repaired f100 (init facts_repaired [1;2] true)
-          (replicate 6 AProd ++ [ACPoll; ACons; ACProbe; ACons; AItem; AEnv; AEnv] ++ replicate 7 AProd) with
+          (replicate 6 AProd ++ [ACPoll; ACons; ACProbe; ACons; AItem; AEnv; AEnv; AEnv] ++ replicate 7 AProd) with
   | Some s => (s.(cst), s.(pending), s.(cwoken), s.(clatest), s.(running), cons_wake_inflight s)
               = (CPend, [101], false, 1, Some (1, JWake (Some 1) KLoop), true)
   | None => False
@@ -79,8 +81,8 @@ Proof. vm_compute. reflexivity. Qed.
    l.313-322 the test `pending.len() >= max_pipe_depth` and the store into backpressure_release_notify happen under ONE
    acquisition of the core mutex, which is the single model step [JFull]. *)
 Theorem C12_backpressure_release :
-  forall (F : pfacts) (f : nat -> nat) inputs ext tr s,
-    run F f (init F inputs ext) tr = Some s ->
+  forall (F : pfacts) (f : nat -> nat) inputs sl ext tr s,
+    run F f (init_slow F inputs sl ext) tr = Some s ->
     s.(jobq) = [] -> s.(running) = None -> dropped s = false -> s.(poll_fn) = true ->
     live_opt s s.(inp_waker) = true \/ live_opt s s.(bp) = true \/ wk_tok s s.(cwk) = true \/ wk_tok s s.(ewk) = true.
 Proof. exact backpressure_release. Qed.
@@ -107,9 +109,9 @@ Proof. vm_compute. split; reflexivity. Qed.
    the consumer has not dropped the stream, it has received [f <$> inputs] and then None.  Needs the replace fact. *)
 Theorem C12_terminal_complete :
   forall (F : pfacts) (f : nat -> nat), F.(f_poll_next_replaces_waker) = true ->
-  forall inputs ext tr s,
+  forall inputs sl ext tr s,
     1 <= F.(f_default_depth) -> Forall (fun a => a <> ACSetDepth 0) tr ->
-    run F f (init F inputs ext) tr = Some s ->
+    run F f (init_slow F inputs sl ext) tr = Some s ->
     terminal F f s -> dropped s = false ->
     s.(delivered) = f <$> inputs /\ s.(got_end) = true /\ s.(cst) = CDone.
 Proof. exact terminal_complete. Qed.
@@ -122,3 +124,11 @@ Example C12_terminal_complete_nonvacuous :
   forallb (fun a => negb (bool_decide (a = ACSetDepth 0))) tr = true.
 Proof. vm_compute. split_and!; reflexivity. Qed.
 Check terminalb_sound : forall F f s, terminalb F f s = true -> terminal F f s.
+
+(* with slow items: the run of Scenarios.slow_items_complete, and a consumer polling while an item is suspended *)
+Example C12_slow_items_nonvacuous :
+  let '(s, tr) := phases facts_repaired [everyone] (init_slow facts_repaired [1;2;3] [2;3] true) in
+  run facts_repaired f100 (init_slow facts_repaired [1;2;3] [2;3] true) tr = Some s /\
+  terminalb facts_repaired f100 s = true /\ dropped s = false /\ s.(delivered) = [101;102;103] /\
+  existsb (fun a => bool_decide (a = AProd)) tr = true.
+Proof. vm_compute. split_and!; reflexivity. Qed.
